@@ -44,6 +44,8 @@ pub struct Profile {
     /// weight of the *cluster idiom* (a generated sub-program that builds a small object graph
     /// with relative selectors) among the program segments; the single operations weigh ~110
     pub idiom: u32,
+    /// weight of the *cleaner burst* idiom (many actions on one cleaner, cleaned, re-registered)
+    pub idiom_c: u32,
 }
 
 pub const GENERAL: Profile = Profile {
@@ -78,6 +80,7 @@ pub const GENERAL: Profile = Profile {
     max_ops: 40,
     max_objects_hint: 12,
     idiom: 4,
+    idiom_c: 1,
 };
 
 pub fn profile(name: &str) -> Profile {
@@ -90,8 +93,8 @@ pub fn profile(name: &str) -> Profile {
         "resurrection" => Profile { name: "resurrection", idiom: 7, p_fin: 90, new: 16, set_slot: 20, drop: 18, collect: 10, downgrade: 6, store_weak: 8, new_cyclic: 6, upgrade: 6, ..g },
         "weak" => Profile { name: "weak", idiom: 7, downgrade: 10, weak_clone: 4, weak_drop: 6, upgrade: 12, store_weak: 10, clear_weak: 2, weak_new: 1, new_cyclic: 6, p_dq: 60, register: 4, clean: 3, try_unwrap: 4, ..g },
         "counts" => Profile { name: "counts", idiom: 1, new: 6, downgrade: 14, weak_clone: 10, weak_drop: 14, upgrade: 8, clone: 10, drop: 16, try_unwrap: 6, new_cyclic: 5, set_slot: 6, collect: 5, max_objects_hint: 4, ..g },
-        "cleaners" => Profile { name: "cleaners", register: 14, clean: 10, drop_cleanable: 4, new: 12, set_slot: 12, drop: 16, collect: 8, downgrade: 4, upgrade: 4, ..g },
-        "nesting" => Profile { name: "nesting", p_fin: 85, register: 8, clean: 4, new_cyclic: 5, new: 14, set_slot: 16, drop: 18, collect: 8, try_unwrap: 3, finalize_again: 3, set_config: 2, ..g },
+        "cleaners" => Profile { name: "cleaners", idiom_c: 9, register: 14, clean: 10, drop_cleanable: 4, new: 12, set_slot: 12, drop: 16, collect: 8, downgrade: 4, upgrade: 4, ..g },
+        "nesting" => Profile { name: "nesting", idiom_c: 3, p_fin: 85, register: 8, clean: 4, new_cyclic: 5, new: 14, set_slot: 16, drop: 18, collect: 8, try_unwrap: 3, finalize_again: 3, set_config: 2, ..g },
         "unwrap" => Profile { name: "unwrap", try_unwrap: 14, drop_loose: 6, clone: 12, drop: 14, downgrade: 6, upgrade: 5, new_cyclic: 5, collect: 6, ..g },
         "cyclic" => Profile { name: "cyclic", new_cyclic: 14, new: 10, set_config: 3, collect: 6, upgrade: 6, drop: 14, set_slot: 12, p_fin: 55, ..g },
         // long histories: more objects, several collections and threshold adaptations per case
@@ -288,6 +291,56 @@ fn cluster(p: &Profile) -> BoxedStrategy<Vec<Op>> {
         .boxed()
 }
 
+/// The cleaner burst: one new object, `k` actions registered on its cleaner at once (the cleaner's
+/// slot map grows past its initial capacity), a first round of `clean()` calls (all of them in a
+/// generated order, or a subset), `r` further registrations on the same cleaner, a second round of
+/// `clean()` calls over old and new cleanables (repeated and stale ones included), then optionally
+/// the release of the owner and a collection.
+fn cleaner_burst(p: &Profile) -> BoxedStrategy<Vec<Op>> {
+    (
+        spec(p),
+        prop::collection::vec(prop::collection::vec(act_op(), 0..=2), 1..=6),
+        (any::<bool>(), prop::collection::vec(any::<u8>(), 0..=8)),
+        prop::collection::vec(prop::collection::vec(act_op(), 0..=1), 0..=3),
+        prop::collection::vec(any::<u8>(), 0..=5),
+        (any::<bool>(), 0u8..2),
+    )
+        .prop_map(|(host, acts, (all, order), more, second, (release, collects))| {
+            let mut ops = vec![Op::New(host)];
+            let k = acts.len();
+            for a in acts {
+                ops.push(rel(Op::Register { h: 0, act: a, cap: None, weak_owner: false }));
+            }
+            // cleanable i (0-based registration order) is the (n-1-i)-th most recent cleanable
+            if all {
+                // every action once, in a generated order (rotation + stride), then the extras
+                let start = order.first().copied().unwrap_or(0) as usize % k;
+                for j in 0..k {
+                    ops.push(rel(Op::Clean(((start + j) % k) as u8)));
+                }
+            } else {
+                for x in &order {
+                    ops.push(rel(Op::Clean(*x % k as u8)));
+                }
+            }
+            let r = more.len();
+            for a in more {
+                ops.push(rel(Op::Register { h: 0, act: a, cap: None, weak_owner: false }));
+            }
+            for x in second {
+                ops.push(rel(Op::Clean(x % (k + r) as u8)));
+            }
+            if release {
+                ops.push(rel(Op::Drop(0)));
+            }
+            for _ in 0..collects {
+                ops.push(Op::Collect);
+            }
+            ops
+        })
+        .boxed()
+}
+
 pub fn case(p: &Profile, max_faults: usize) -> BoxedStrategy<(Case, Vec<FaultReq>)> {
     let max_ops = p.max_ops;
     let single: u32 = 110;
@@ -295,6 +348,7 @@ pub fn case(p: &Profile, max_faults: usize) -> BoxedStrategy<(Case, Vec<FaultReq
         prop_oneof![
             single => op(p).prop_map(|o| vec![o]),
             p.idiom => cluster(p),
+            p.idiom_c.max(1) => cleaner_burst(p),
         ]
         .boxed()
     } else {
